@@ -100,6 +100,12 @@ CHECKS = {
             'again; TLC judges RerunRestores (task, workflow, enclosing workflows and parent tasks RUNNING), RerunReexecutes, '
             'PartialRerunOnlyFailed, SkipApplied and NoHang after the rerun.',
             ENG_NOTE, ENG_TECH, '5, 7-C12'),
+    'C20': ('engine', 'model_checking',
+            'Runs in which a subset of actions goes silent (request never served, no heartbeat), another subset is slow but alive '
+            '(heartbeats sent), the virtual clock advances by check intervals with a real handle_expired_actions pass after each, genuine '
+            'results are released late, and a with-items accounting job is lost (stuck task recovered by the real integrity check); TLC '
+            'judges ExpiredFailed, NeverExpireFresh, NoStuckTaskAtRest, ResultOnce/FinishedFrozen (late genuine result inert) and NoHang.',
+            ENG_NOTE, ENG_TECH, '5, 7-C20'),
 }
 
 NOT_YET = 'check not built yet (build in progress; see DESIGN.md section 12)'
